@@ -7822,6 +7822,17 @@ def main():
         status["utf8"] = f"translator cannot read {e}"
     except Exception as e:  # fail closed on anything the parser did not anticipate
         status["utf8"] = f"translator cannot read bitrepr.rs: internal error {type(e).__name__}: {e}"
+    try:  # hook for floatskel (tools/translate_floatskel.py: index skeletons of the float functions -> Gen/FloatSkel.lean)
+        import translate_floatskel
+        for dep in ("constants", "config", "source", "lpc"):
+            if status.get(dep) != "ok":
+                fail(f"coding.rs: part `{dep}` failed (Gen/FloatSkel.lean imports Gen/Lpc.lean)")
+        write("FloatSkel.lean", translate_floatskel.emit_floatskel(sys.modules[__name__], status))
+        status["floatskel"] = "ok"
+    except Unreadable as e:
+        status["floatskel"] = f"translator cannot read {e}"
+    except Exception as e:  # fail closed on anything the parser did not anticipate
+        status["floatskel"] = f"translator cannot read coding.rs/lpc.rs (float skeletons): internal error {type(e).__name__}: {e}"
     os.makedirs(os.path.join(ROOT, ".cache"), exist_ok=True)
     json.dump(status, open(os.path.join(ROOT, ".cache", "translate_status.json"), "w"), indent=1)
     bad = [v for v in status.values() if v != "ok"]
